@@ -67,7 +67,9 @@ def any_dependency_to_module_other_than(
         # the dependent and its submodules should be considered
         # Example: if we are looking for imports by A.X, we do not care if A itself imports something
         # (but we do care if A.X.M (submodule of A.X) imports something, as this is part of A.X)
-        nodes_to_exclude.add(dependent.identifier)
+        # A itself is not one of its sub modules: the search does not start from it, and an import of A by one of
+        # its sub modules is an import of something else (as in any_other_dependency_to_module_than)
+        nodes_that_do_not_fulfill_criterion.discard(dependent.identifier)
 
     for dependent_upon in dependent_upons:
         if dependent_upon.identifier_is_parent_module and dependent_upon != dependent:
